@@ -124,6 +124,39 @@ def f15_shaped(env):
     return (not G.oracle(env)["ok"]) and G.oracle(env, strict_head=False)["ok"]
 
 
+F20 = "F20"
+
+
+def top_mode(body_dump):
+    """mode of the first node of a dumped type"""
+    p = body_dump.lstrip("(").split(" ")
+    if p[0] in ("up", "dn"):
+        return p[2]
+    if p[0] == "N":
+        return p[2].rstrip(")")
+    return p[1].rstrip(")")
+
+
+def f20_shaped(env, obs):
+    """the recorded shape of F20: accepted although some definition is recorded with a mode that is not the
+    mode of its body, and the independent checker objects to nothing but conflicting modes"""
+    if vclass(obs) != "OK":
+        return False
+    if not any(line_modes(l)[1] != top_mode(line_modes(l)[2]) for l in type_lines(obs)):
+        return False
+    rs = G.oracle(env, strict_head=False)["reasons"]
+    return "mode-conflict" in rs and rs <= {"mode-conflict", "ref-mode", "mode-mismatch"}
+
+
+def known_ids(prop):
+    return {k.get("id") for k in C.known_findings(prop)}
+
+
+def known_line_f20(prop, n, example):
+    return "%s a definition recorded with a mode that is not the mode of its body is accepted (alias inside a cycle of definitions " \
+           "with conflicting modes; %d generated environments of exactly this shape, e.g. `%s`)" % (F20, n, example.strip().replace("\n", " ; ")[:160])
+
+
 def f15_is_known(prop):
     return any(k.get("id") == F15 for k in C.known_findings(prop))
 
@@ -198,6 +231,7 @@ def analyse(b, prop, sub, items, cases, impl, model, proj, spec_check, render_it
     spec_check(env, anns, impl_observable) -> ("ok"|"known"|"violation"|"skip", detail)
     returns (violations, known_count, known_example, counters)"""
     violations, known_n, known_ex = [], 0, ""
+    known_by = {}
     cnt = collections.Counter()
     spec_bad, model_bad = [], []
     for (i, k, e, anns), (_, _, t) in zip(items, cases):
@@ -210,6 +244,8 @@ def analyse(b, prop, sub, items, cases, impl, model, proj, spec_check, render_it
         if st == "known":
             known_n += 1
             known_ex = known_ex or t
+            n0, ex0 = known_by.get(detail, (0, t))
+            known_by[detail] = (n0 + 1, ex0)
         elif st == "violation":
             spec_bad.append((i, k, e, anns, t, a, detail))
         if proj(a) != proj(m):
@@ -243,7 +279,21 @@ def analyse(b, prop, sub, items, cases, impl, model, proj, spec_check, render_it
             found_input=False))
     cnt["model-disagreements"] = len(model_bad)
     cnt["spec-disagreements"] = len(spec_bad)
-    return violations, known_n, known_ex, cnt
+    cnt["known_by"] = {k: v[0] for k, v in known_by.items()}
+    return violations, known_by, known_ex, cnt
+
+
+def known_lines(prop, *known_bys):
+    """one KNOWN-FINDING line per recorded finding that showed up"""
+    tot = {}
+    for kb in known_bys:
+        for k, (n, ex) in (kb or {}).items():
+            n0, ex0 = tot.get(k, (0, ex))
+            tot[k] = (n0 + n, ex0)
+    out = []
+    for k, (n, ex) in sorted(tot.items()):
+        out.append(known_line(prop, n, ex) if k == F15 else known_line_f20(prop, n, ex))
+    return out, sum(n for n, _ in tot.values()), {k: n for k, (n, _) in tot.items()}
 
 
 def corpus_check(b, prop, sub, proj):
